@@ -5,6 +5,8 @@ import (
 	stdjson "encoding/json"
 	"fmt"
 	"reflect"
+	"strings"
+	"time"
 
 	gojson "github.com/goccy/go-json"
 )
@@ -193,6 +195,10 @@ func runC18(o *Out) {
 		d2 = append(d2, bytes.Repeat([]byte("}"), depth)...)
 		c18Text(o, d2, depth <= 100, false)
 	}
+	// audit wave 6 strata (after the older ones, whose random inputs stay what they were)
+	t0 := time.Now()
+	c18Strata(o)
+	o.Notes = append(o.Notes, fmt.Sprintf("audit strata: %.1fs", time.Since(t0).Seconds()))
 }
 
 func isWS(s string) bool {
@@ -202,4 +208,327 @@ func isWS(s string) bool {
 		}
 	}
 	return true
+}
+
+// ---------------------------------------------------------------------------
+// audit wave 6: additional strata (see the notes of audit A6)
+// ---------------------------------------------------------------------------
+
+// c18Valid: Valid is named in the property and was not observed here.  It is built on
+// the stream decoder, which skips one leading ',' or ':' (StreamLeadingSeparator,
+// recorded under C05): texts beginning with one are left to C05.
+func c18Valid(o *Out, src []byte) {
+	for _, c := range src {
+		if c == ' ' || c == '\t' || c == '\n' || c == '\r' {
+			continue
+		}
+		if c == ',' || c == ':' {
+			o.count("valid_left_to_C05_leading_separator", 1)
+			return
+		}
+		break
+	}
+	want := stdjson.Valid(src)
+	var got bool
+	err := safeCall(func() error { got = gojson.Valid(src); return nil })
+	o.count("valid_cases", 1)
+	if want {
+		o.count("valid_cases_valid_text", 1)
+	}
+	if err != nil || got != want {
+		o.violation("C18", "Valid differs from encoding/json", map[string]string{"src": fmt.Sprintf("%q", clipC18(src)), "len": fmt.Sprint(len(src)),
+			"impl": fmt.Sprintf("%v err=%v", got, err), "oracle": fmt.Sprint(want)})
+	}
+}
+
+func clipC18(b []byte) []byte {
+	if len(b) > 400 {
+		return append(append([]byte{}, b[:200]...), append([]byte(" ... "), b[len(b)-150:]...)...)
+	}
+	return b
+}
+
+// c18Plain compares Compact and Indent (one setting) with encoding/json without sending
+// the text to the model: for texts that are too long or too many for it.
+func c18Plain(o *Out, src []byte, what string, ps [2]string) {
+	c18CompactValid(o, src, what)
+	ii, is := indentObs(src, ps[0], ps[1], "PRE", true), indentObs(src, ps[0], ps[1], "PRE", false)
+	o.count("indent_cases", 1)
+	if !bytes.Equal(ii, is) {
+		o.violation("C18", "Indent differs from encoding/json ("+what+")", map[string]string{"src": fmt.Sprintf("%q", clipC18(src)), "len": fmt.Sprint(len(src)),
+			"prefix": ps[0], "indent": ps[1], "impl": fmt.Sprintf("%q", clipC18(ii)), "oracle": fmt.Sprintf("%q", clipC18(is))})
+	}
+}
+
+// c18DepthLimit: nesting at the limit of 10000 (encoding/json's scanner and the
+// library's maxNestingDepth) and one or two beyond it, for arrays, objects and a mix,
+// with an empty and a non-empty innermost value: the counters of compact.go and
+// indent.go are kept differently (depth+1 on entry / indentNum raised only for a
+// non-empty container) and the decoder behind Valid and HTMLEscape has its own.
+func c18DepthLimit(o *Out) {
+	nest := func(depth int, kind int, inner string) []byte {
+		var open, close []byte
+		for i := 0; i < depth; i++ {
+			obj := kind == 1 || (kind == 2 && i%2 == 1)
+			if obj {
+				open = append(open, `{"a":`...)
+				close = append(close, '}')
+			} else {
+				open = append(open, '[')
+				close = append(close, ']')
+			}
+		}
+		for i, j := 0, len(close)-1; i < j; i, j = i+1, j-1 {
+			close[i], close[j] = close[j], close[i]
+		}
+		return append(append(open, inner...), close...)
+	}
+	depths := []int{9999, 10000, 10001}
+	if o.tier == "thorough" {
+		depths = []int{9998, 9999, 10000, 10001, 10002}
+	}
+	for _, depth := range depths {
+		for kind, kn := range []string{"arrays", "objects", "alternating"} {
+			for _, inner := range []string{"[]", "{}", "1", `[1]`, `{"a":1}`, " [ ] ", `""`} {
+				// the innermost container counts as a level: depth-1 around it
+				d := depth
+				if inner[0] == '[' || inner[0] == '{' || inner[0] == ' ' {
+					d = depth - 1
+				}
+				src := nest(d, kind, inner)
+				o.hist("depth_limit", fmt.Sprintf("%d %s", depth, kn))
+				// Indent writes (and encoding/json's Indent loops over) depth indents per line: some
+				// 0.4 s per text at this depth, so the quick tier indents the texts that decide the
+				// two counters (indentObject/indentArray, empty and non-empty innermost) only
+				what := fmt.Sprintf("nesting depth %d, %s, innermost %s", depth, kn, inner)
+				if o.tier == "thorough" || ((depth == 10000 || depth == 10001) && kind < 2 && (inner == "1" || inner == []string{"[]", "{}"}[kind])) {
+					o.count("depth_limit_indent_texts", 1)
+					c18Plain(o, src, what, [2]string{"", ""})
+				} else {
+					c18CompactValid(o, src, what)
+				}
+				if stdjson.Valid(src) && inner == "1" {
+					c18HTMLEscape(o, src)
+				}
+			}
+		}
+	}
+	// siblings do not add to the depth
+	src := []byte("[" + strings.Repeat("[[]],", 6000) + string(nest(9998, 0, "[]")) + "]")
+	c18CompactValid(o, src, "6000 shallow siblings before a nest of 9999")
+}
+
+func c18CompactValid(o *Out, src []byte, what string) {
+	gi, gs := compactObs(src, "PRE", true), compactObs(src, "PRE", false)
+	o.count("compact_cases", 1)
+	if !bytes.Equal(gi, gs) {
+		o.violation("C18", "Compact differs from encoding/json ("+what+")", map[string]string{"src": fmt.Sprintf("%q", clipC18(src)), "len": fmt.Sprint(len(src)),
+			"impl": fmt.Sprintf("%q", clipC18(gi)), "oracle": fmt.Sprintf("%q", clipC18(gs))})
+	}
+	c18Valid(o, src)
+}
+
+// c18StringLiterals: string tokens built from the escape items of C17 (every simple
+// escape, \u of every class, surrogates paired and alone, broken escapes, raw control
+// bytes, multi-byte characters) and the HTML-special characters, as value, as key and
+// as array element next to other tokens.
+func c18StringLiterals(o *Out) {
+	items := append([]string{}, c17Items...)
+	items = append(items, "<", ">", "&", "\u2028", "\u2029", "\\u003c", "\\u2029", "\xff", "\xe2\x80", "\xe2\x80\xa8x", "\xe2")
+	n := 0
+	try := func(lit string) {
+		n++
+		for i, doc := range []string{`"` + lit + `"`, `{"` + lit + `":"` + lit + `"}`, `[1,"` + lit + `" ,"` + lit + `"]`} {
+			c18Text(o, []byte(doc), i == 0 && n%5 == 0, n%50 == 0)
+			c18Valid(o, []byte(doc))
+			c18HTMLEscape(o, []byte(doc))
+		}
+		o.count("string_literal_texts", 3)
+	}
+	for _, a := range items {
+		try(a)
+		for _, b := range items {
+			try(a + b)
+		}
+	}
+	nr := 1500
+	if o.tier == "thorough" {
+		nr = 60000
+	}
+	for i := 0; i < nr; i++ {
+		lit := ""
+		for j, k := 0, 3+o.rng.Intn(6); j < k; j++ {
+			lit += items[o.rng.Intn(len(items))]
+		}
+		try(lit)
+	}
+}
+
+// c18Numbers: every text of up to 5 (thorough: 6) bytes over the number alphabet, alone,
+// inside an array and as a member value (the byte that ends the token differs), and
+// as the second of two numbers.
+func c18Numbers(o *Out) {
+	maxLen := 5
+	if o.tier == "thorough" {
+		maxLen = 6
+	}
+	n := 0
+	enumStrings([]byte("019-+.eE"), maxLen, func(b []byte) {
+		if len(b) == 0 {
+			return
+		}
+		n++
+		s := string(b)
+		ctxs := []string{s, "[" + s + "]", `{"a":` + s + "}", "[0," + s + " ]"}
+		if len(b) <= 4 {
+			return // the older enumeration over the 27-byte alphabet has these alone; keep the contexts for longer ones only
+		}
+		for i, c := range ctxs {
+			if i > 0 && n%3 != i-1 && o.tier != "thorough" {
+				continue
+			}
+			gi, gs := compactObs([]byte(c), "", true), compactObs([]byte(c), "", false)
+			o.count("compact_cases", 1)
+			o.count("number_form_texts", 1)
+			if gs[0] == 'O' {
+				o.count("number_form_texts_valid", 1)
+			}
+			if !bytes.Equal(gi, gs) {
+				o.emit("C", "c18.compact", [][]byte{[]byte("0"), []byte(c)}, gi, gs, true)
+			}
+			ii, is := indentObs([]byte(c), "", " ", "", true), indentObs([]byte(c), "", " ", "", false)
+			o.count("indent_cases", 1)
+			if !bytes.Equal(ii, is) {
+				o.emit("C", "c18.indent", [][]byte{[]byte(""), []byte(" "), []byte(c)}, ii, is, true)
+			}
+			c18Valid(o, []byte(c))
+		}
+	})
+}
+
+// c18Destinations: the destination buffer in other states than empty or "PRE": filled
+// beyond bytes.Buffer's small-buffer size, with spare capacity smaller and larger
+// than the output, partly read (read offset > 0), and reused for a second call.
+func c18Destinations(o *Out, src []byte) {
+	type call struct {
+		name string
+		goj  func(b *bytes.Buffer) error
+		std  func(b *bytes.Buffer) error
+	}
+	calls := []call{
+		{"Compact", func(b *bytes.Buffer) error { return gojson.Compact(b, src) }, func(b *bytes.Buffer) error { return stdjson.Compact(b, src) }},
+		{"Indent", func(b *bytes.Buffer) error { return gojson.Indent(b, src, "\t", "  ") }, func(b *bytes.Buffer) error { return stdjson.Indent(b, src, "\t", "  ") }},
+	}
+	for _, c := range calls {
+		for _, st := range []struct{ fill, capacity, read int }{{1, 0, 0}, {63, 0, 0}, {64, 0, 0}, {65, 64, 0}, {10, 16, 0}, {10, 11, 0}, {100, 4096, 0},
+			{600, 0, 0}, {40, 0, 7}, {40, 64, 40}, {5000, 0, 4999}, {0, 1, 0}, {0, 1 << 16, 0}} {
+			mk := func() *bytes.Buffer {
+				data := make([]byte, st.fill, st.fill+st.capacity)
+				for i := range data {
+					data[i] = "0123456789"[i%10]
+				}
+				b := bytes.NewBuffer(data)
+				b.Next(st.read)
+				return b
+			}
+			gb, wb := mk(), mk()
+			gerr := safeCall(func() error { return c.goj(gb) })
+			werr := c.std(wb)
+			o.count("destination_state_cases", 1)
+			det := map[string]string{"call": c.name, "src": fmt.Sprintf("%q", clipC18(src)), "filled": fmt.Sprint(st.fill), "spare_capacity": fmt.Sprint(st.capacity), "already_read": fmt.Sprint(st.read)}
+			if (gerr != nil) != (werr != nil) || !bytes.Equal(gb.Bytes(), wb.Bytes()) {
+				det["impl"] = fmt.Sprintf("err=%v %q", gerr, clipC18(gb.Bytes()))
+				det["oracle"] = fmt.Sprintf("err=%v %q", werr, clipC18(wb.Bytes()))
+				o.violation("C18", "destination buffer differs from encoding/json's for a destination that is not empty", det)
+				continue
+			}
+			// a second call appends to what the first left, error or not
+			gerr2 := safeCall(func() error { return c.goj(gb) })
+			werr2 := c.std(wb)
+			if (gerr2 != nil) != (werr2 != nil) || !bytes.Equal(gb.Bytes(), wb.Bytes()) {
+				det["impl"] = fmt.Sprintf("err=%v %q", gerr2, clipC18(gb.Bytes()))
+				det["oracle"] = fmt.Sprintf("err=%v %q", werr2, clipC18(wb.Bytes()))
+				o.violation("C18", "second call on the same destination differs from encoding/json", det)
+			}
+		}
+	}
+}
+
+// c18Large: texts larger than the pooled source/destination buffers start with, then
+// small ones again (the pooled buffers keep the long text behind the new sentinel).
+func c18Large(o *Out) {
+	long := strings.Repeat("x<y\\u00e9\\n", 8000)
+	var arr, obj strings.Builder
+	arr.WriteString("[")
+	obj.WriteString("{")
+	for i := 0; i < 6000; i++ {
+		if i > 0 {
+			arr.WriteString(" ,\n")
+			obj.WriteString(",")
+		}
+		fmt.Fprintf(&arr, "%d.5e-%d", i, i%300)
+		fmt.Fprintf(&obj, "\"k%d\" : [ %d , {\"a\":null} ]\t", i, i)
+	}
+	arr.WriteString("]")
+	obj.WriteString("}")
+	texts := []string{`"` + long + `"`, `{"` + long + `":"` + long + `"}`, arr.String(), obj.String(),
+		arr.String()[:len(arr.String())-1], `"` + long, obj.String() + "x", strings.Repeat(" ", 70000) + "1" + strings.Repeat("\n", 70000)}
+	for ti, t := range texts {
+		ps := [][2]string{{"", " "}, {"\t\t", "é"}}[ti%2]
+		c18Plain(o, []byte(t), "large text", ps)
+		o.count("large_texts", 1)
+		for _, small := range []string{`{"a":[1,2]}`, `[`, `"x"`, ` 1 `} {
+			c18Plain(o, []byte(small), "small text after a large one", ps)
+		}
+		c18HTMLEscape(o, []byte(t))
+		if ti < 3 || o.tier == "thorough" {
+			c18Destinations(o, []byte(t))
+		}
+	}
+}
+
+func c18Strata(o *Out) {
+	var times []string
+	lap := time.Now()
+	mark := func(name string) {
+		times = append(times, fmt.Sprintf("%s %.1fs", name, time.Since(lap).Seconds()))
+		lap = time.Now()
+	}
+	c18DepthLimit(o)
+	mark("depth")
+	c18StringLiterals(o)
+	mark("strings")
+	c18Numbers(o)
+	mark("numbers")
+	for i, d := range corpusDocs {
+		c18Valid(o, []byte(d))
+		if i%3 == 0 {
+			c18Destinations(o, []byte(d))
+		}
+	}
+	byteSweep(func(b []byte) { c18Valid(o, b); c18HTMLEscape(o, b) })
+	nd := 600
+	if o.tier == "thorough" {
+		nd = 20000
+	}
+	for i := 0; i < nd; i++ {
+		d := genDoc(o.rng, 4)
+		c18Valid(o, []byte(d))
+		if i%6 == 0 {
+			c18Destinations(o, []byte(d))
+		}
+		if i%3 == 0 {
+			k := 0
+			mutations(d, alphabet27, 5, func(m string) {
+				k++
+				if k%4 == 0 {
+					c18Valid(o, []byte(m))
+				}
+			})
+		}
+	}
+	mark("valid+destinations")
+	c18Large(o)
+	mark("large")
+	o.Notes = append(o.Notes, "audit strata: "+strings.Join(times, ", "))
 }
